@@ -23,7 +23,7 @@ GENERIC = {
  'C05': ("Coq proofs about the path-constructor model (prefix closure, reuse, order) + vm_compute correspondence over list/dict/DataFrame/polars entry points", "DESIGN.md 7/C05"),
  'C06': ("Coq export/import round-trip proofs (dict, nested dict, frames, Newick, printed tree) + vm_compute correspondence + translator tie (Newick control characters regenerated from bigtree/utils/constants.py and checked against the model's reader and writer on every run)", "DESIGN.md 7/C06"),
  'C07': ("Coq effect-skeleton proofs on the heap model (copy freshness, frame, independence) with refinement theorems tying the skeletons to the algorithm models + runtime snapshot correspondence", "DESIGN.md 7/C07"),
- 'C08': ("Coq proofs about the shift/copy/replace model (decision table, multi-pair refinement) + vm_compute correspondence over flag combinations", "DESIGN.md 7/C08"),
+ 'C08': ("Coq proofs about the shift/copy/replace model (decision table, multi-pair refinement, commuting square with the heap model of the parent setter) + vm_compute correspondence over flag combinations", "DESIGN.md 7/C08"),
  'C09': ("Coq soundness/completeness proofs of the search model + vm_compute correspondence", "DESIGN.md 7/C09"),
  'C10': ("Coq invariant proof over DAG operation histories (heap model) + vm_compute correspondence", "DESIGN.md 7/C10"),
  'C11': ("Coq invariant proof over BinaryNode operation histories (heap model) + vm_compute correspondence", "DESIGN.md 7/C11"),
